@@ -38,6 +38,9 @@ const KINDS: &[Kind] = &[
     Kind { id: "global-collides-with-from-use", top: Some("from {m} use kk as dup{n}\ndup{n} :: 1"), stmt: None, lines: &[0, 1] },
     Kind { id: "two-uses-one-alias", top: Some("use {m} as dup{n}\nuse {m2} as dup{n}"), stmt: None, lines: &[0, 1] },
     Kind { id: "two-from-uses-one-name", top: Some("from {m} use kk as dup{n}\nfrom {m2} use kk as dup{n}"), stmt: None, lines: &[0, 1] },
+    Kind { id: "from-use-list-missing-name-on-later-line", top: Some("from {m} use (\n    kk as fine{n},\n    nope{n},\n)"), stmt: None, lines: &[2] },
+    Kind { id: "from-use-list-missing-name-on-last-line", top: Some("from {m} use (\n    kk as fine{n},\n    takes_str as ts{n},\n    nope{n}\n)"), stmt: None, lines: &[3] },
+    Kind { id: "from-use-list-duplicate-on-later-line", top: Some("dup{n} :: 1\nfrom {m} use (\n    kk as fine{n},\n    takes_str as dup{n},\n)"), stmt: None, lines: &[0, 3] },
     Kind { id: "from-use-of-missing-name", top: Some("from {m} use nope{n}"), stmt: None, lines: &[0] },
     Kind { id: "assign-to-constant", top: None, stmt: Some("kk = 1"), lines: &[0] },
     Kind { id: "assign-to-local-constant", top: None, stmt: Some("lc{n} :: 1\nlc{n} = 2"), lines: &[1] },
